@@ -118,6 +118,11 @@ fn run(line: &str) -> String {
         "sig.esk_from_slice" => { let b = hex(t[1]); match ed25519_dalek::hazmat::ExpandedSecretKey::from_slice(&b[..]) { Ok(_) => "OK".into(), Err(_) => "ERR".into() } }
         "ed.from_slice" => { let b = hex(t[1]); match CompressedEdwardsY::from_slice(&b[..]) { Ok(v) => hx(v.as_bytes()), Err(_) => "ERR".into() } }
         "ris.from_slice" => { let b = hex(t[1]); match CompressedRistretto::from_slice(&b[..]) { Ok(v) => hx(v.as_bytes()), Err(_) => "ERR".into() } }
+        // RNG-driven constructors through a deterministic rng that repeats a 32-byte seed (FixedRng): the 64 octets drawn are seed || seed
+        "rnd.scalar" => { use group::ff::Field; let a = Scalar::random(&mut FixedRng(a32(t[1]), 0)); let b = <Scalar as Field>::random(FixedRng(a32(t[1]), 0)); format!("{} {}", hx(a.as_bytes()), hx(b.as_bytes())) }
+        "rnd.ris" => { use group::Group; let a = RistrettoPoint::random(&mut FixedRng(a32(t[1]), 0)); let b = <RistrettoPoint as Group>::random(FixedRng(a32(t[1]), 0)); format!("{} {}", hx(a.compress().as_bytes()), hx(b.compress().as_bytes())) }
+        // only called with a seed that is a valid non-identity encoding (the real loop would not terminate otherwise: every draw is the seed)
+        "rnd.ed" => { use group::Group; let a = <EdwardsPoint as Group>::random(FixedRng(a32(t[1]), 0)); hx(a.compress().as_bytes()) }
         "grp.ed" => {
             // group-trait view of an Edwards point: trait is_torsion_free, into_subgroup.is_some, clear_cofactor, GroupEncoding round trip
             use group::cofactor::CofactorGroup; use group::GroupEncoding;
